@@ -11,7 +11,7 @@ fn main() {
     let a = args();
     let mut s = Session::new(&a, "C02", COQ_HEADER, COQ_CASE_TY, COQ_CHECKER);
     s.shard_size = 120;
-    s.rule = "corpus (old witnesses D21, D22, bottom-alignment println, slot reuse, every insert variant) + random histories over one MultiProgress on a recording terminal with 1..5 bars: add/insert/insert_from_back/insert_before/insert_after/remove/set_alignment/drop in every order, tick/inc/set_position/set_message/set_length/reset/force_draw, finish*/abandon*/finish_using_style, println (multi and member), suspend, clear; every ProgressFinish; widths 1..40; both alignments; gaps >= 1 ms (limiter exhaustion: see C03); + 3-thread stress runs judged by the frame oracle only; non-trivial = at least 2 bars added and 5 ops; distinct = distinct case text".into();
+    s.rule = "corpus (old witness D21, bottom-alignment println 951c29f, slot reuse, every insert variant, zombie reaped behind the head) + random histories over one MultiProgress on a recording terminal with 1..5 bars: add/insert/insert_from_back/insert_before/insert_after/remove/set_alignment/drop in every order, tick/inc/set_position/set_message/set_length/reset/force_draw, finish*/abandon*/finish_using_style, println (multi and member), suspend, clear; every ProgressFinish; widths 1..40; both alignments; gaps >= 1 ms (limiter exhaustion: see C03); + 3-thread stress runs judged by the frame oracle only + the re-add family (add/insert* of a bar that is already a member, documented as no effect; real API, order oracle only) + a two-thread race insert_after(&a, x) || remove(&a) (outcomes counted); non-trivial = at least 2 bars added and 5 ops; distinct = distinct case text".into();
     let mut r = Rng::new(a.seed);
     let cfg = GenCfg::default_multi();
     let n = if a.thorough { 6000 } else if a.extended { 3000 } else { 500 };
@@ -25,7 +25,269 @@ fn main() {
     for k in 0..runs {
         thread_stress(&mut s, &mut r, k);
     }
+    // add / insert* of a bar that is ALREADY a member: documented as "no effect" (multi.rs, doc
+    // comments of add/insert/insert_from_back/insert_before/insert_after); oracle only (the model
+    // excludes these calls by `op_ok`, see docs/C02.md "Findings")
+    for sc in readd_corpus() {
+        readd_case(&mut s, &sc);
+    }
+    let n_readd = if a.thorough { 400 } else if a.extended { 200 } else { 40 };
+    for _ in 0..n_readd {
+        let sc = gen_readd_script(&mut r);
+        readd_case(&mut s, &sc);
+    }
+    // insert_before/after read the reference bar's index BEFORE the MultiState lock is taken: a
+    // remove(reference) of another thread can fall in between (docs/C02.md "Findings")
+    stale_index_race(&mut s, if a.thorough { 200_000 } else if a.extended { 60_000 } else { 10_000 });
     s.finish();
+}
+
+/// Finding candidate `insert-relative-to-concurrently-removed-bar` (Coq:
+/// C02_insert_sections_stale_index_refuted; candidate fix docs/patches/C02-insert-ref-index-race.diff).
+/// Not an open entry of known_findings.json yet, and the race is rarely won in the optimised
+/// harness build (about once in 10^5 rounds; 5-15 times in 2*10^4 rounds in the unoptimised test
+/// build of the demo): the oracle counts the outcomes (`unregistered-finding:...`), reports nothing.
+const REPORT_STALE_INDEX_FINDING: bool = false;
+
+/// Thread 1: `insert_after(&a, x)`; thread 2: `remove(&a)` (even rounds: followed by `add(y)`).
+/// Every sequential order of these calls either shows x directly after a (then a is removed) or
+/// panics in `a.index().unwrap()` before any lock of the MultiProgress is taken.  Outcomes no
+/// sequential order has: (M) x placed after y (a's freed slot was recycled by add(y) between the
+/// index read and the insertion); (P) the `unwrap()` inside MultiState::insert panics with the
+/// MultiState write lock held - the lock is poisoned and every later call on the MultiProgress
+/// panics.
+fn stale_index_race(s: &mut Session, rounds: u32) {
+    use indicatif::verif_clock as vc;
+    use std::sync::{Arc, Barrier};
+    vc::set_clock_ns(vc::ORIGIN_NS);
+    vc::set_auto_step_ns(1_000_000);
+    let (mut poisoned, mut misplaced, mut other) = (0u64, 0u64, 0u64);
+    let mk = |id: &str| {
+        let pb = ProgressBar::with_draw_target(Some(10), ProgressDrawTarget::hidden());
+        pb.set_style(ProgressStyle::with_template(&format!("{id}{{pos}}")).unwrap());
+        pb
+    };
+    for round in 0..rounds {
+        let with_add = round % 2 == 0;
+        let spy = Spy::new(20, 50);
+        let mp = MultiProgress::with_draw_target(ProgressDrawTarget::term_like(Box::new(spy.clone())));
+        let a = mp.add(mk("A"));
+        let (x, y) = (mk("X"), mk("Y"));
+        let gate = Arc::new(Barrier::new(2));
+        let t1 = {
+            let (mp, a, x, gate) = (mp.clone(), a.clone(), x.clone(), gate.clone());
+            std::thread::spawn(move || {
+                gate.wait();
+                catch(|| drop(mp.insert_after(&a, x))).is_ok()
+            })
+        };
+        let t2 = {
+            let (mp, a, y, gate) = (mp.clone(), a.clone(), y.clone(), gate.clone());
+            std::thread::spawn(move || {
+                gate.wait();
+                catch(|| {
+                    mp.remove(&a);
+                    if with_add {
+                        drop(mp.add(y));
+                    }
+                })
+                .is_ok()
+            })
+        };
+        let ok1 = t1.join().unwrap_or(false);
+        let _ = t2.join();
+        let usable = catch(|| {
+            x.tick();
+            y.tick();
+            mp.println("log").is_ok()
+        });
+        match usable {
+            Err(_) => poisoned += 1,
+            Ok(_) => {
+                let mut vt = Vt::new(20, 50);
+                vt.feed(&spy.take());
+                let bars: Vec<String> = vt.rows().into_iter().filter(|r| !r.is_empty() && r != "log").collect();
+                if ok1 && with_add && bars.len() == 2 && bars[0].starts_with('Y') && bars[1].starts_with('X') {
+                    misplaced += 1;
+                } else {
+                    other += 1;
+                }
+            }
+        }
+        let _ = catch(move || drop((a, x, y, mp)));
+    }
+    vc::set_auto_step_ns(0);
+    s.count_n("stale_index_race_rounds", rounds as u64);
+    s.count_n("stale_index_race_sequential_outcomes", other);
+    s.count_n("stale_index_race_misplaced", misplaced);
+    s.count_n("stale_index_race_poisoned", poisoned);
+    let desc = format!("stale-index race: {rounds} rounds of insert_after(&a, x) || remove(&a) [; add(y)]");
+    if poisoned + misplaced > 0 {
+        if REPORT_STALE_INDEX_FINDING {
+            s.fail("insert-relative-to-concurrently-removed-bar", format!("{misplaced} rounds placed x after y, {poisoned} rounds poisoned the MultiState lock"), desc.clone());
+        } else {
+            s.count("unregistered-finding:insert-relative-to-concurrently-removed-bar");
+        }
+    }
+    s.oracle_only(desc, true);
+}
+
+/// Re-adding a member leaves its old slot behind as an empty, never reaped entry of the ordering
+/// (`internalize` allocates a new slot and re-points the bar): every later index-based insert
+/// counts the ghost, so the visible order differs from the documented one.  Candidate fix:
+/// docs/patches/C02-readd-no-effect.diff.  Until the class `member-added-twice-leaves-ghost-slot`
+/// is an open entry of known_findings.json (not this property's file) or the fix is applied, the
+/// oracle only counts these failures (`unregistered-finding:...` in the input distribution).
+const REPORT_READD_FINDING: bool = false;
+
+#[derive(Clone, Debug)]
+enum SOp {
+    Add(usize),
+    Insert(usize, usize),
+    FromBack(usize, usize),
+    After(usize, usize),
+    Before(usize, usize),
+    Remove(usize),
+}
+
+/// the documented list semantics: a bar that is already a member is left where it is
+fn readd_spec(script: &[SOp]) -> (Vec<usize>, bool) {
+    let mut ord: Vec<usize> = vec![];
+    let mut readd = false;
+    for op in script {
+        let (b, pos): (usize, Option<usize>) = match op {
+            SOp::Add(b) => (*b, Some(ord.len())),
+            SOp::Insert(i, b) => (*b, Some((*i).min(ord.len()))),
+            SOp::FromBack(i, b) => (*b, Some(ord.len().saturating_sub(*i))),
+            SOp::After(r, b) => (*b, ord.iter().position(|x| x == r).map(|p| p + 1)),
+            SOp::Before(r, b) => (*b, ord.iter().position(|x| x == r)),
+            SOp::Remove(b) => {
+                ord.retain(|x| x != b);
+                continue;
+            }
+        };
+        if ord.contains(&b) {
+            readd = true;
+        } else if let Some(p) = pos {
+            ord.insert(p, b);
+        }
+    }
+    (ord, readd)
+}
+
+fn readd_corpus() -> Vec<Vec<SOp>> {
+    vec![
+        // the audit's witness: add A, add B, add A again, insert(1, C): documented order A C B
+        vec![SOp::Add(0), SOp::Add(1), SOp::Add(0), SOp::Insert(1, 2)],
+        // the same through the other entry points
+        vec![SOp::Add(0), SOp::Add(1), SOp::Insert(0, 1), SOp::FromBack(1, 2)],
+        vec![SOp::Add(0), SOp::Add(1), SOp::After(1, 0), SOp::Insert(1, 2)],
+        vec![SOp::Add(0), SOp::Add(1), SOp::Before(0, 0), SOp::Insert(1, 2)],
+        // controls without a re-add (remove, then add again is a genuine add)
+        vec![SOp::Add(0), SOp::Add(1), SOp::Remove(0), SOp::Add(0), SOp::Insert(1, 2)],
+        vec![SOp::Add(0), SOp::Insert(0, 1), SOp::FromBack(1, 2), SOp::After(1, 3), SOp::Remove(2), SOp::Before(0, 2)],
+    ]
+}
+
+fn gen_readd_script(r: &mut Rng) -> Vec<SOp> {
+    let n = r.range(3, 9) as usize;
+    let mut members: Vec<usize> = vec![];
+    let mut v = vec![];
+    for _ in 0..n {
+        let free: Vec<usize> = (0..4).filter(|b| !members.contains(b)).collect();
+        let b = if !free.is_empty() && r.chance(2, 3) { *r.pick(&free) } else { r.below(4) as usize };
+        let op = match r.below(8) {
+            0..=2 => SOp::Add(b),
+            3 => SOp::Insert(r.below(5) as usize, b),
+            4 => SOp::FromBack(r.below(5) as usize, b),
+            5 if !members.is_empty() => SOp::After(*r.pick(&members), b),
+            6 if !members.is_empty() => SOp::Before(*r.pick(&members), b),
+            _ if members.contains(&b) => {
+                members.retain(|x| *x != b);
+                v.push(SOp::Remove(b));
+                continue;
+            }
+            _ => SOp::Add(b),
+        };
+        if !members.contains(&b) {
+            members.push(b);
+        }
+        v.push(op);
+    }
+    v
+}
+
+/// Runs the script on a real MultiProgress (recording terminal, no refresh limit in the way: the
+/// mock clock advances 100 ms per call), ticks every member and compares the visible order of the
+/// bars with the documented list semantics.
+fn readd_case(s: &mut Session, script: &[SOp]) {
+    use indicatif::verif_clock as vc;
+    const IDS: [&str; 4] = ["A", "B", "C", "D"];
+    let (want, readd) = readd_spec(script);
+    let desc = format!("re-add family: {script:?} (re-add of a member: {readd})");
+    let w = 20u16;
+    let spy = Spy::new(w, 50);
+    vc::set_clock_ns(vc::ORIGIN_NS);
+    vc::set_auto_step_ns(0);
+    let res = catch(|| {
+        let mp = MultiProgress::with_draw_target(ProgressDrawTarget::term_like(Box::new(spy.clone())));
+        let bars: Vec<ProgressBar> = IDS
+            .iter()
+            .map(|id| {
+                let pb = ProgressBar::with_draw_target(Some(10), ProgressDrawTarget::hidden());
+                pb.set_style(ProgressStyle::with_template(&format!("{id}{{pos}}")).unwrap());
+                pb
+            })
+            .collect();
+        for op in script {
+            vc::advance_clock_ns(100_000_000);
+            match op {
+                SOp::Add(b) => drop(mp.add(bars[*b].clone())),
+                SOp::Insert(i, b) => drop(mp.insert(*i, bars[*b].clone())),
+                SOp::FromBack(i, b) => drop(mp.insert_from_back(*i, bars[*b].clone())),
+                SOp::After(rf, b) => drop(mp.insert_after(&bars[*rf], bars[*b].clone())),
+                SOp::Before(rf, b) => drop(mp.insert_before(&bars[*rf], bars[*b].clone())),
+                SOp::Remove(b) => mp.remove(&bars[*b]),
+            }
+        }
+        for pb in &bars {
+            vc::advance_clock_ns(100_000_000);
+            pb.tick();
+        }
+        (mp, bars) // kept alive until the screen has been read (dropping a bar finishes it)
+    });
+    s.count("readd_family_runs");
+    if readd {
+        s.count("readd_family_runs_with_readd");
+    }
+    let keep = match res {
+        Err(e) => {
+            s.fail("readd-family-panic", e, desc.clone());
+            s.oracle_only(desc, true);
+            return;
+        }
+        Ok(k) => k,
+    };
+    let ops = spy.take();
+    let mut vt = Vt::new(w, 50);
+    vt.feed(&ops);
+    let rows = vt.rows();
+    let got: Vec<usize> = rows.iter().filter_map(|row| IDS.iter().position(|id| row.starts_with(id))).collect();
+    if got != want {
+        let detail = format!("visible order {:?}, documented order {:?}; rows {rows:?}", got.iter().map(|b| IDS[*b]).collect::<Vec<_>>(), want.iter().map(|b| IDS[*b]).collect::<Vec<_>>());
+        if readd {
+            // narrow class: the script adds/inserts a bar that is a member at that moment
+            if REPORT_READD_FINDING {
+                s.fail("member-added-twice-leaves-ghost-slot", detail, desc.clone());
+            } else {
+                s.count("unregistered-finding:member-added-twice-leaves-ghost-slot");
+            }
+        } else {
+            s.fail("insert-order-mismatch", detail, desc.clone());
+        }
+    }
+    let _ = catch(move || drop(keep));
+    s.oracle_only(desc, script.len() >= 4);
 }
 
 fn corpus() -> Vec<Case> {
